@@ -26,6 +26,12 @@ the answer); post "body200" ("rpc"|"nonjson"|"empty"), "text", "exc_text"; case 
 "ctor_fails" (n: creating the n-th HTTP client raises), exit kind "cancel-asyncio-twice",
 "api" ("sse_client" | "fallback" = try_sse_with_fallback), "params" (headers / bearer_token of
 SSEParameters), "close_raises" (closing the GET response stream raises).
+Round 4 additions: "twin" (n: n sessions with their own scripted servers run CONCURRENTLY in one
+process, same script, same request ids; "twin_offset": ticks between their starts), "warm" as a list
+of conn specs (consecutive earlier sessions on the same parameters object, e.g. failing ones),
+"debug_log" (root logger at DEBUG with a NullHandler, as a host that configured logging),
+"close_exc" (the GET stream ends with an exception of that class instead of EOF), conn / post
+"exc_class" (class of the exception the connection attempt / the POST raises), more 200 bodies.
 conn.at, chunk ticks and close are relative to the arrival of the GET; enter.t is relative to the
 start of the (observed) session.
 
@@ -127,18 +133,66 @@ def id_key(v):
     return json.dumps(v, sort_keys=True)
 
 
+JSON_NON_OBJECTS = {"list": b"[1, 2]", "null": b"null", "number": b"7", "string": b"\"ok\"", "true": b"true"}
+
+
 class Garbage:
     """an object that is neither a dict nor a model"""
 
 
+class StrRaises(Exception):
+    """an exception whose text cannot be produced"""
+
+    def __str__(self):
+        raise RuntimeError("no text for this exception")
+
+    __repr__ = __str__
+
+
+def make_exc(name, request, default_msg):
+    import httpx
+    table = {"TypeError": TypeError, "ValueError": ValueError, "KeyError": KeyError, "IndexError": IndexError,
+             "AttributeError": AttributeError, "RuntimeError": RuntimeError, "RecursionError": RecursionError,
+             "OSError": OSError, "Exception": Exception, "StrRaises": StrRaises, "UnicodeDecodeError": None}
+    if name in (None, "ReadError"):
+        return httpx.ReadError(default_msg, request=request)
+    if name == "ConnectError":
+        return httpx.ConnectError(default_msg, request=request)
+    if name == "ReadTimeout":
+        return httpx.ReadTimeout(default_msg, request=request)
+    if name == "UnicodeDecodeError":
+        return UnicodeDecodeError("utf-8", b"\xff", 0, 1, "scripted")
+    if name == "StrRaises":
+        return StrRaises()
+    return table[name](default_msg)
+
+
+def _debug_logging():
+    """Run the code as a host application with logging configured at DEBUG would (every
+    `logger.debug(...)` / `isEnabledFor` branch is live); records go to a NullHandler."""
+    import logging
+    root = logging.getLogger()
+    prev_disable, prev_level, prev_handlers = root.manager.disable, root.level, list(root.handlers)
+    root.handlers[:] = [logging.NullHandler()]
+    root.setLevel(logging.DEBUG)
+    logging.disable(logging.NOTSET)
+
+    def restore():
+        logging.disable(prev_disable)
+        root.setLevel(prev_level)
+        root.handlers[:] = prev_handlers
+    return restore
+
+
 def run_case(case):
+    import contextvars
     import httpx
     import anyio
 
-    obs = {"posts": [], "delivered": [], "enter": None, "harness_errors": []}
-    clients = []
-    streams = []
-    made = []
+    n_twins = max(1, int(case.get("twin", 1)))
+    sessions = [{"obs": {"posts": [], "delivered": [], "enter": None, "harness_errors": []}, "clients": [], "streams": [], "made": []}
+                for _ in range(n_twins)]
+    current = contextvars.ContextVar("verif_sse_session")
 
     def dump(m):
         if hasattr(m, "model_dump"):
@@ -152,14 +206,22 @@ def run_case(case):
 
         loop = asyncio.get_running_loop()
         me = asyncio.current_task()
-        state = {}
+
+        def at_future(tick):
+            f = loop.create_future()
+
+            def fire():
+                if not f.done():
+                    f.set_result(None)
+            loop.at(max(tick, loop.ticks), fire)
+            return f
 
         class ScriptedStream(httpx.AsyncByteStream):
-            def __init__(self):
+            def __init__(self, S):
                 self.q = collections.deque()
                 self.waiter = None
                 self.closed = False
-                streams.append(self)
+                S["streams"].append(self)
 
             def push(self, item):
                 self.q.append(item)
@@ -174,6 +236,8 @@ def run_case(case):
                     item = self.q.popleft()
                     if item is None:
                         return
+                    if isinstance(item, BaseException):
+                        raise item
                     yield item
 
             async def aclose(self):
@@ -206,7 +270,7 @@ def run_case(case):
                 while not self.busy:
                     if self.static and (self.pos not in self.bounds or not self.dynamic):
                         b = self.static.popleft()
-                        if b is not None:
+                        if isinstance(b, (bytes, bytearray)):
                             self.pos += len(b)
                         self.stream.push(b)
                     elif self.dynamic and self.pos in self.bounds:
@@ -232,295 +296,324 @@ def run_case(case):
                         self.pump()
                 return f
 
-        conn = case.get("conn") or {"k": "ok", "at": 0}
-        reqs = {}
-        for r in case.get("reqs", []):
-            if r.get("id") is not None:
-                reqs.setdefault(id_key(r["id"]), collections.deque()).append(r)
-
-        def at_future(tick):
-            f = loop.create_future()
-
-            def fire():
-                if not f.done():
-                    f.set_result(None)
-            loop.at(max(tick, loop.ticks), fire)
-            return f
-
-        async def handler(request: "httpx.Request"):
-            if request.method == "GET":
-                t_get = loop.ticks
-                obs["get"] = [t_get, str(request.url)]
-                obs["get_hdr"] = {k.lower(): v for k, v in request.headers.items()}
-                if conn["k"] == "hang":
-                    await loop.create_future()
-                await at_future(t_get + conn.get("at", 0))
-                if conn["k"] == "error":
-                    raise httpx.ConnectError("scripted connect error", request=request)
-                if conn["k"] == "status":
-                    return httpx.Response(conn["code"], text="scripted status")
-                stream = ScriptedStream()
-                w = Writer(stream, case.get("bounds", []))
-                state["writer"] = w
-                for tick, hx in case.get("chunks", []):
-                    loop.at(max(t_get + tick, loop.ticks), (lambda b, w=w: (lambda: w.release_static(b)))(bytes.fromhex(hx)))
-                if case.get("close") is not None:
-                    loop.at(max(t_get + case["close"], loop.ticks), lambda w=w: w.release_static(None))
-                stream.given = True
-                return httpx.Response(200, headers={"content-type": "text/event-stream"}, stream=stream)
-            # POST
-            try:
-                body = json.loads(request.content.decode("utf-8"))
-            except Exception:
-                body = None
-            rid = body.get("id") if isinstance(body, dict) else None
-            obs.setdefault("post_hdr", {k.lower(): v for k, v in request.headers.items()})
-            obs["posts"].append([loop.ticks, str(request.url), rid, (body or {}).get("method") if isinstance(body, dict) else None])
-            q = reqs.get(id_key(rid)) if rid is not None else None
-            r = q.popleft() if q else None
-            if r is None:
-                # notification (or an id the script does not know): plain acknowledgement, or the
-                # scripted failure of a notification POST
-                nf = case.get("notif_post")
-                if nf == "exc":
-                    raise httpx.ReadError("scripted POST failure", request=request)
-                if isinstance(nf, int):
-                    return httpx.Response(nf, text="scripted")
-                return httpx.Response(202, text="Accepted")
-            now = loop.ticks
-            ev = r.get("ev")
-            post = r["post"]
-            w = state.get("writer")
-
-            def sched_event():
-                if ev is not None and w is not None:
-                    data = sse_event_bytes(answer_msg(r, "ev"), "message" if ev.get("typed", True) else None,
-                                           nospace=ev.get("nospace", False), multiline=ev.get("multiline", False))
-                    pieces = cut_bytes(data, ev.get("cuts", []))
-                    loop.at(now + ev["d"], lambda: w.write_event(pieces, ev.get("gap", 0)))
-            if ev is not None and ev.get("after_post_at_tie"):
-                done = at_future(now + post["d"])
-                sched_event()
-            else:
-                sched_event()
-                done = at_future(now + post["d"])
-            await done
-            k = post["k"]
-            if k == "exc":
-                raise httpx.ReadError(post.get("exc_text", "scripted POST failure"), request=request)
-            if k == "200":
-                b200 = post.get("body200", "rpc")
-                if b200 == "nonjson":
-                    return httpx.Response(200, text="<html>ok</html>")
-                if b200 == "empty":
-                    return httpx.Response(200)
-                if b200 == "foreign":   # a JSON-RPC response, but not to this request
-                    return httpx.Response(200, json={"jsonrpc": "2.0", "id": "zz-foreign", "result": {"tag": "foreign"}})
-                if b200 == "ack":       # a plain acknowledgement document
-                    return httpx.Response(200, json={"status": "ok"})
-                return httpx.Response(200, json=answer_msg(r, "body"))
-            if k == "202":
-                return httpx.Response(202, text="Accepted")
-            code = post.get("code", 500)
-            b = post.get("body", "text")
-            if b == "empty":
-                return httpx.Response(code)
-            if b == "text":
-                return httpx.Response(code, text=post.get("text", "Internal Server Error"))
-            if b == "detail":
-                return httpx.Response(code, json={"detail": "Internal Server Error"})
-            if b == "rpc":
-                return httpx.Response(code, json=answer_msg(r, "post"))
-            return httpx.Response(code, text=str(b))
-
         RealClient = httpx.AsyncClient
 
         class PatchedClient(RealClient):
             def __init__(self, *a, **k):
-                made.append(1)
-                if case.get("ctor_fails") == len(made):
+                S = current.get()
+                S["made"].append(1)
+                if case.get("ctor_fails") == len(S["made"]):
                     raise RuntimeError("scripted failure creating the HTTP client")
-                k["transport"] = httpx.MockTransport(handler)
+                k["transport"] = httpx.MockTransport(S["handler"])
                 super().__init__(*a, **k)
-                clients.append(self)
+                S["clients"].append(self)
 
         httpx.AsyncClient = PatchedClient
-        reader_task = None
-        canceller = []
         ex = case.get("exit") or {"k": "normal", "at": 0}
         pk = dict(case.get("params") or {})
-        try:
-            params = SSEParameters(url=case.get("base", "http://h.test"), timeout=case["T"] * vloop.TICK, **pk)
-            params_error = None
-        except Exception as e:  # parameters the library refuses: creating the context is what raises
-            params, params_error = None, e
 
-        def client_cm():
-            if params_error is not None:
-                raise params_error
-            return sse_client(params)
+        def make_session(idx, S):
+            obs = S["obs"]
+            state = {"conn": case.get("conn") or {"k": "ok", "at": 0}}
+            reqs = {}
+            for r in case.get("reqs", []):
+                if r.get("id") is not None and r.get("post") is not None:
+                    reqs.setdefault(id_key(r["id"]), collections.deque()).append(r)
 
-        async def reader(rs, start):
-            try:
-                if start > loop.ticks:
-                    await at_future(start)
-                async for m in rs:
-                    obs["delivered"].append(dump(m))
-                return "end"
-            except anyio.ClosedResourceError:
-                return "closed"
-
-        def build(r):
-            if r.get("form") == "garbage":
-                return Garbage()
-            msg = {"jsonrpc": "2.0", "method": r.get("method", "tools/list")}
-            if r.get("id") is not None:
-                msg["id"] = r["id"]
-            if "params" in r:
-                msg["params"] = r["params"]
-            if r.get("form") == "model":
-                return JSONRPCMessage.model_validate(msg)
-            return msg
-
-        async def warm():
-            """a first session on the same parameters object: entered and left"""
-            ts = loop.ticks
-            try:
-                async with client_cm():
-                    obs["warm"] = {"k": "yielded", "t": loop.ticks - ts}
-                    await at_future(loop.ticks + 2)
-            except Exception as e:
-                obs["warm"] = {"k": "raised", "t": loop.ticks - ts, "exc": type(e).__name__}
-            for _ in range(5):
-                await asyncio.sleep(0)
-
-        async def session():
-            nonlocal reader_task
-            ts = loop.ticks
-            try:
-                if case.get("api") == "fallback":
-                    cm = await try_sse_with_fallback(case.get("base", "http://h.test"), timeout=case["T"] * vloop.TICK, **pk)
-                else:
-                    cm = client_cm()
-                async with cm as (rs, ws):
-                    obs["enter"] = {"k": "yielded", "t": loop.ticks - ts}
-                    obs["rs"], obs["ws"] = rs, ws
-                    reader_task = asyncio.create_task(reader(rs, loop.ticks + case.get("pause", 0)))
-
-                    def mk_write(r):
-                        def f():
-                            try:
-                                ws.send_nowait(build(r))
-                            except Exception as e:  # closed already: the request is simply not sent
-                                obs.setdefault("write_errors", []).append(type(e).__name__)
-                        return f
-                    t0 = loop.ticks
-                    if canceller:
-                        loop.at(t0 + ex["at"], canceller[0])
-                    wtask = None
-                    if case.get("write_mode") == "await":
-                        async def producer():
-                            try:
-                                for r in sorted(case.get("reqs", []), key=lambda r: r["at"]):
-                                    if t0 + r["at"] > loop.ticks:
-                                        await at_future(t0 + r["at"])
-                                    await ws.send(build(r))
-                                obs["produced"] = loop.ticks - t0
-                            except Exception as e:
-                                obs.setdefault("write_errors", []).append(type(e).__name__)
-                        wtask = asyncio.create_task(producer())
-                    else:
-                        for r in case.get("reqs", []):
-                            loop.at(t0 + r["at"], mk_write(r))
-                    try:
-                        if canceller:
-                            await loop.create_future()  # until cancelled from outside
-                        await at_future(t0 + ex["at"])
-                        obs["exit_t"] = loop.ticks - t0
-                        if ex["k"] == "exception":
-                            raise Boom()
-                    finally:
-                        if wtask is not None and not wtask.done():
-                            wtask.cancel()
-            except Boom:
-                obs["body_exc"] = True
-            except Exception as e:
-                if obs["enter"] is None:
-                    obs["enter"] = {"k": "raised", "t": loop.ticks - ts, "exc": type(e).__name__}
-                else:
-                    obs["exit_exc"] = type(e).__name__
-
-        try:
-            if case.get("warm"):
-                await warm()
-            if ex["k"] in ("cancel-asyncio", "cancel-asyncio-twice"):
-                t = asyncio.create_task(session())
-                if ex["k"] == "cancel-asyncio-twice":
-                    # a second cancellation while the context is being left
-                    def again(n):
-                        if n <= 0:
-                            t.cancel()
-                        else:
-                            loop.call_soon(again, n - 1)
-                    canceller.append(lambda: (t.cancel(), again(ex.get("hops", 2))))
-                else:
-                    canceller.append(t.cancel)
+            async def handler(request: "httpx.Request"):
+                conn = state["conn"]
+                if request.method == "GET":
+                    t_get = loop.ticks
+                    obs["get"] = [t_get, str(request.url)]
+                    obs["get_hdr"] = {k.lower(): v for k, v in request.headers.items()}
+                    if conn["k"] == "hang":
+                        await loop.create_future()
+                    await at_future(t_get + conn.get("at", 0))
+                    if conn["k"] == "error":
+                        raise make_exc(conn.get("exc_class", "ConnectError"), request, "scripted connect error")
+                    if conn["k"] == "status":
+                        return httpx.Response(conn["code"], text="scripted status")
+                    stream = ScriptedStream(S)
+                    w = Writer(stream, case.get("bounds", []))
+                    state["writer"] = w
+                    for tick, hx in case.get("chunks", []):
+                        loop.at(max(t_get + tick, loop.ticks), (lambda b, w=w: (lambda: w.release_static(b)))(bytes.fromhex(hx)))
+                    if case.get("close") is not None:
+                        end = None if not case.get("close_exc") else make_exc(case["close_exc"], request, "scripted stream failure")
+                        loop.at(max(t_get + case["close"], loop.ticks), lambda w=w, end=end: w.release_static(end))
+                    stream.given = True
+                    return httpx.Response(200, headers={"content-type": "text/event-stream"}, stream=stream)
+                # POST
                 try:
-                    await t
-                except asyncio.CancelledError:
-                    obs["cancelled"] = True
-            elif ex["k"] == "cancel-anyio":
-                with anyio.CancelScope() as scope:
-                    canceller.append(scope.cancel)
+                    body = json.loads(request.content.decode("utf-8"))
+                except Exception:
+                    body = None
+                rid = body.get("id") if isinstance(body, dict) else None
+                obs.setdefault("post_hdr", {k.lower(): v for k, v in request.headers.items()})
+                obs["posts"].append([loop.ticks, str(request.url), rid, (body or {}).get("method") if isinstance(body, dict) else None])
+                try:
+                    q = reqs.get(id_key(rid)) if rid is not None else None
+                except TypeError:
+                    q = None
+                r = q.popleft() if q else None
+                if r is None:
+                    # notification (or an id the script does not know): plain acknowledgement, or the
+                    # scripted failure of a notification POST
+                    nf = case.get("notif_post")
+                    if nf == "exc":
+                        raise httpx.ReadError("scripted POST failure", request=request)
+                    if isinstance(nf, int):
+                        return httpx.Response(nf, text="scripted")
+                    return httpx.Response(202, text="Accepted")
+                now = loop.ticks
+                ev = r.get("ev")
+                post = r["post"]
+                w = state.get("writer")
+
+                def sched_event():
+                    if ev is not None and w is not None:
+                        data = sse_event_bytes(answer_msg(r, "ev"), "message" if ev.get("typed", True) else None,
+                                               nospace=ev.get("nospace", False), multiline=ev.get("multiline", False))
+                        pieces = cut_bytes(data, ev.get("cuts", []))
+                        loop.at(now + ev["d"], lambda: w.write_event(pieces, ev.get("gap", 0)))
+                if ev is not None and ev.get("after_post_at_tie"):
+                    done = at_future(now + post["d"])
+                    sched_event()
+                else:
+                    sched_event()
+                    done = at_future(now + post["d"])
+                await done
+                k = post["k"]
+                if k == "exc":
+                    raise make_exc(post.get("exc_class"), request, post.get("exc_text", "scripted POST failure"))
+                if k == "200":
+                    b200 = post.get("body200", "rpc")
+                    if b200 == "nonjson":
+                        return httpx.Response(200, text="<html>ok</html>")
+                    if b200 == "empty":
+                        return httpx.Response(200)
+                    if b200 == "badutf8":
+                        return httpx.Response(200, content=b"\xff\xfe{", headers={"content-type": "application/json"})
+                    if b200 == "foreign":   # a JSON-RPC response, but not to this request
+                        return httpx.Response(200, json={"jsonrpc": "2.0", "id": "zz-foreign", "result": {"tag": "foreign"}})
+                    if b200 == "ack":       # a plain acknowledgement document
+                        return httpx.Response(200, json={"status": "ok"})
+                    if b200 in JSON_NON_OBJECTS:
+                        return httpx.Response(200, content=JSON_NON_OBJECTS[b200], headers={"content-type": "application/json"})
+                    return httpx.Response(200, json=answer_msg(r, "body"))
+                if k == "202":
+                    return httpx.Response(202, text="Accepted")
+                code = post.get("code", 500)
+                b = post.get("body", "text")
+                if b == "empty":
+                    return httpx.Response(code)
+                if b == "text":
+                    return httpx.Response(code, text=post.get("text", "Internal Server Error"))
+                if b == "detail":
+                    return httpx.Response(code, json={"detail": "Internal Server Error"})
+                if b == "rpc":
+                    return httpx.Response(code, json=answer_msg(r, "post"))
+                if b in JSON_NON_OBJECTS:
+                    return httpx.Response(code, content=JSON_NON_OBJECTS[b], headers={"content-type": "application/json"})
+                return httpx.Response(code, text=str(b))
+
+            S["handler"] = handler
+            S["reader_task"] = None
+            canceller = []
+            try:
+                params = SSEParameters(url=case.get("base", "http://h.test"), timeout=case["T"] * vloop.TICK, **pk)
+                params_error = None
+            except Exception as e:  # parameters the library refuses: creating the context is what raises
+                params, params_error = None, e
+
+            def client_cm():
+                if params_error is not None:
+                    raise params_error
+                return sse_client(params)
+
+            async def reader(rs, start):
+                try:
+                    if start > loop.ticks:
+                        await at_future(start)
+                    async for m in rs:
+                        obs["delivered"].append(dump(m))
+                    return "end"
+                except anyio.ClosedResourceError:
+                    return "closed"
+
+            def build(r):
+                if r.get("form") == "garbage":
+                    return Garbage()
+                msg = {"jsonrpc": "2.0", "method": r.get("method", "tools/list")}
+                if r.get("id") is not None:
+                    msg["id"] = r["id"]
+                if "params" in r:
+                    msg["params"] = r["params"]
+                if r.get("form") == "model":
+                    return JSONRPCMessage.model_validate(msg)
+                return msg
+
+            async def warm(spec):
+                """an earlier session on the same parameters object: entered (or not) and left"""
+                ts = loop.ticks
+                saved = state["conn"]
+                if isinstance(spec, dict):
+                    state["conn"] = spec
+                try:
+                    async with client_cm():
+                        obs.setdefault("warm", []).append({"k": "yielded", "t": loop.ticks - ts})
+                        await at_future(loop.ticks + 2)
+                except Exception as e:
+                    obs.setdefault("warm", []).append({"k": "raised", "t": loop.ticks - ts, "exc": type(e).__name__})
+                finally:
+                    state["conn"] = saved
+                for _ in range(5):
+                    await asyncio.sleep(0)
+
+            async def session():
+                ts = loop.ticks
+                try:
+                    if case.get("api") == "fallback":
+                        cm = await try_sse_with_fallback(case.get("base", "http://h.test"), timeout=case["T"] * vloop.TICK, **pk)
+                    else:
+                        cm = client_cm()
+                    async with cm as (rs, ws):
+                        obs["enter"] = {"k": "yielded", "t": loop.ticks - ts}
+                        S["ws"] = ws
+                        S["reader_task"] = asyncio.create_task(reader(rs, loop.ticks + case.get("pause", 0)))
+
+                        def mk_write(r):
+                            def f():
+                                try:
+                                    ws.send_nowait(build(r))
+                                except Exception as e:  # closed already: the request is simply not sent
+                                    obs.setdefault("write_errors", []).append(type(e).__name__)
+                            return f
+                        t0 = loop.ticks
+                        if canceller:
+                            loop.at(t0 + ex["at"], canceller[0])
+                        wtask = None
+                        if case.get("write_mode") == "await":
+                            async def producer():
+                                try:
+                                    for r in sorted(case.get("reqs", []), key=lambda r: r["at"]):
+                                        if t0 + r["at"] > loop.ticks:
+                                            await at_future(t0 + r["at"])
+                                        await ws.send(build(r))
+                                    obs["produced"] = loop.ticks - t0
+                                except Exception as e:
+                                    obs.setdefault("write_errors", []).append(type(e).__name__)
+                            wtask = asyncio.create_task(producer())
+                        else:
+                            for r in case.get("reqs", []):
+                                loop.at(t0 + r["at"], mk_write(r))
+                        try:
+                            if canceller:
+                                await loop.create_future()  # until cancelled from outside
+                            await at_future(t0 + ex["at"])
+                            obs["exit_t"] = loop.ticks - t0
+                            if ex["k"] == "exception":
+                                raise Boom()
+                        finally:
+                            if wtask is not None and not wtask.done():
+                                wtask.cancel()
+                except Boom:
+                    obs["body_exc"] = True
+                except Exception as e:
+                    if obs["enter"] is None:
+                        obs["enter"] = {"k": "raised", "t": loop.ticks - ts, "exc": type(e).__name__}
+                    else:
+                        obs["exit_exc"] = type(e).__name__
+
+            async def run():
+                current.set(S)
+                if idx and case.get("twin_offset"):
+                    await at_future(loop.ticks + idx * case["twin_offset"])
+                w = case.get("warm")
+                for spec in ([None] if w is True else (w or [])):
+                    await warm(spec)
+                if ex["k"] in ("cancel-asyncio", "cancel-asyncio-twice"):
+                    t = asyncio.create_task(session())
+                    if ex["k"] == "cancel-asyncio-twice":
+                        # a second cancellation while the context is being left
+                        def again(n):
+                            if n <= 0:
+                                t.cancel()
+                            else:
+                                loop.call_soon(again, n - 1)
+                        canceller.append(lambda: (t.cancel(), again(ex.get("hops", 2))))
+                    else:
+                        canceller.append(t.cancel)
+                    try:
+                        await t
+                    except asyncio.CancelledError:
+                        obs["cancelled"] = True
+                elif ex["k"] == "cancel-anyio":
+                    with anyio.CancelScope() as scope:
+                        canceller.append(scope.cancel)
+                        await session()
+                    obs["cancelled"] = scope.cancelled_caught
+                else:
                     await session()
-                obs["cancelled"] = scope.cancelled_caught
+                obs["left_t"] = loop.ticks
+            return run
+
+        try:
+            runs = [make_session(i, S) for i, S in enumerate(sessions)]
+            if len(runs) == 1:
+                await runs[0]()
             else:
-                await session()
-            obs["left_t"] = loop.ticks
+                await asyncio.gather(*(r() for r in runs))
             # let already-cancelled tasks finish: a few loop turns, no virtual time
             for _ in range(10):
                 await asyncio.sleep(0)
-            after = {}
-            if reader_task is not None:
-                try:
-                    after["reader"] = await asyncio.wait_for(asyncio.shield(reader_task), timeout=1.0)
-                except asyncio.TimeoutError:
-                    after["reader"] = "stuck"
-                    reader_task.cancel()
-                except Exception as e:
-                    after["reader"] = "exc:" + type(e).__name__
-            leaked = [t for t in asyncio.all_tasks(loop) if t is not me and not t.done() and t is not reader_task]
-            after["tasks"] = sorted(getattr(t.get_coro(), "__qualname__", "?") for t in leaked)
-            after["clients_open"] = sum(1 for c in clients if not c.is_closed)
-            after["clients"] = len(clients)
-            after["sse_stream_open"] = any(getattr(st, "given", False) and not st.closed for st in streams)
-            ws = obs.get("ws")
-            if ws is not None:
-                try:
-                    ws.send_nowait({"jsonrpc": "2.0", "method": "late"})
-                    after["write_open"] = True
-                except (anyio.ClosedResourceError, anyio.BrokenResourceError):
-                    after["write_open"] = False
-                except anyio.WouldBlock:
-                    after["write_open"] = True
-            obs["after"] = after
+            readers = [S["reader_task"] for S in sessions if S.get("reader_task") is not None]
+            for S in sessions:
+                after = {}
+                rt = S.get("reader_task")
+                if rt is not None:
+                    try:
+                        after["reader"] = await asyncio.wait_for(asyncio.shield(rt), timeout=1.0)
+                    except asyncio.TimeoutError:
+                        after["reader"] = "stuck"
+                        rt.cancel()
+                    except Exception as e:
+                        after["reader"] = "exc:" + type(e).__name__
+                S["after"] = after
+            leaked = [t for t in asyncio.all_tasks(loop) if t is not me and not t.done() and t not in readers]
+            for S in sessions:
+                after = S["after"]
+                after["tasks"] = sorted(getattr(t.get_coro(), "__qualname__", "?") for t in leaked)
+                after["clients_open"] = sum(1 for c in S["clients"] if not c.is_closed)
+                after["clients"] = len(S["clients"])
+                after["sse_stream_open"] = any(getattr(st, "given", False) and not st.closed for st in S["streams"])
+                ws = S.get("ws")
+                if ws is not None:
+                    try:
+                        ws.send_nowait({"jsonrpc": "2.0", "method": "late"})
+                        after["write_open"] = True
+                    except (anyio.ClosedResourceError, anyio.BrokenResourceError):
+                        after["write_open"] = False
+                    except anyio.WouldBlock:
+                        after["write_open"] = True
+                S["obs"]["after"] = after
             for t in leaked:
                 t.cancel()
-            for c in clients:
-                if not c.is_closed:
-                    try:
-                        await c.aclose()
-                    except Exception:
-                        pass
+            for S in sessions:
+                for c in S["clients"]:
+                    if not c.is_closed:
+                        try:
+                            await c.aclose()
+                        except Exception:
+                            pass
         finally:
             httpx.AsyncClient = RealClient
-            obs.pop("rs", None)
-            obs.pop("ws", None)
-
         return None
 
     import httpx as _httpx
     real_client = _httpx.AsyncClient
+    restore_logging = _debug_logging() if case.get("debug_log") else None
+    obs = sessions[0]["obs"]
     try:
         # the code under test prints tracebacks of swallowed exceptions to stderr
         with contextlib.redirect_stderr(io.StringIO()):
@@ -528,12 +621,16 @@ def run_case(case):
         if dl is not None:
             # the code under test waits for something that can never happen
             obs["deadlock"] = [x for x in dl if "run_case" not in x]
-            obs.pop("after", None)
-            obs.pop("left_t", None)
+            for S in sessions:
+                S["obs"].pop("after", None)
+                S["obs"].pop("left_t", None)
     except BaseException as e:  # harness failure, not an observation
         obs["harness_errors"].append(repr(e)[:300])
     finally:
         _httpx.AsyncClient = real_client
-        obs.pop("rs", None)
-        obs.pop("ws", None)
+        if restore_logging is not None:
+            restore_logging()
+    if n_twins > 1:
+        obs["twins"] = [{"enter": S["obs"].get("enter"), "delivered": S["obs"].get("delivered"), "posts": len(S["obs"].get("posts", [])),
+                         "after": S["obs"].get("after"), "get": S["obs"].get("get")} for S in sessions[1:]]
     return obs
